@@ -969,6 +969,41 @@ func checkC16(p *core.Program, r *core.Report) {
 				nsl++
 				key := "cut in " + p.FnName(helper)
 				raw := sl.High != nil && (core.Canon(sl.High) == ssa.Value(lim) || core.ConstOf(sl.High) != nil)
+				// the cut position may be computed by a package-local helper: judge its result at every return
+				if hc, ok := sl.High.(*ssa.Call); ok && !raw {
+					if t := hc.Call.StaticCallee(); t != nil && t.Blocks != nil && p.PkgShort(t) == "mdns" && t.Signature.Results().Len() == 1 {
+						var sp ssa.Value
+						for i, a := range hc.Call.Args {
+							if core.Canon(a) == ssa.Value(sparam) && i < len(t.Params) {
+								sp = t.Params[i]
+							}
+						}
+						why := "the helper that computes the cut position does not look at the string"
+						if sp != nil {
+							why = ""
+							usesRS := false
+							core.EachInstr(t, func(y ssa.Instruction) {
+								if c := core.Common(y); c != nil && core.CalleeName(c) == "unicode/utf8.RuneStart" {
+									usesRS = true
+								}
+							})
+							if !usesRS {
+								why = "the helper that computes the cut position never tests for a rune start"
+							}
+							for _, b := range t.Blocks {
+								if ret, ok := b.Instrs[len(b.Instrs)-1].(*ssa.Return); ok && why == "" {
+									why = runeStartEstablishedAt(t, ret.Results[0], b, sp)
+								}
+							}
+						}
+						if why != "" {
+							r.Fail(R3, key, p.Pos(in.Pos()), why)
+						} else {
+							r.OK(R3, key, p.Pos(in.Pos()), "cut at a bound a helper established on a rune boundary")
+						}
+						return
+					}
+				}
 				if !raw && idiom && sl.High != nil {
 					if why := runeStartEstablished(helper, sl, sparam); why != "" {
 						r.Fail(R3, key, p.Pos(in.Pos()), why)
@@ -1199,6 +1234,12 @@ func eachInstrWithCallees(p *core.Program, fn *ssa.Function, pkg string, depth i
 // decisive branch edge leading into the slice must either have seen RuneStart(s[cut]) == true for the
 // very value the slice uses, or cut <= 0. Returns "" when that holds (or the helper uses another idiom).
 func runeStartEstablished(helper *ssa.Function, sl *ssa.Slice, sparam ssa.Value) string {
+	return runeStartEstablishedAt(helper, sl.High, sl.Block(), sparam)
+}
+
+// runeStartEstablishedAt: the same test for the value high as it reaches block blk of fn (used for the slice
+// itself and for the result of a package-local helper that computes the cut position).
+func runeStartEstablishedAt(helper *ssa.Function, high ssa.Value, blk *ssa.BasicBlock, sparam ssa.Value) string {
 	uses := false
 	core.EachInstr(helper, func(in ssa.Instruction) {
 		if c := core.Common(in); c != nil && core.CalleeName(c) == "unicode/utf8.RuneStart" {
@@ -1208,7 +1249,6 @@ func runeStartEstablished(helper *ssa.Function, sl *ssa.Slice, sparam ssa.Value)
 	if !uses {
 		return ""
 	}
-	high := sl.High
 	isHigh := func(v ssa.Value) bool { return v == high || core.Canon(v) == core.Canon(high) }
 	okEdge := func(b *ssa.BasicBlock, idx int) bool {
 		i := core.BlockIf(b)
@@ -1282,7 +1322,7 @@ func runeStartEstablished(helper *ssa.Function, sl *ssa.Slice, sparam ssa.Value)
 			}
 		}
 	}
-	back(sl.Block())
+	back(blk)
 	return bad
 }
 
